@@ -83,7 +83,7 @@ func sortedKeys(m map[string]model.Cons) []string {
 
 var stringPaths = map[string]bool{"S": true, "Up": true, "Lo": true, "In.S": true, "P.S": true, "Emb.ES": true, "Raw": true, "Der": true}
 
-var exts = []string{".json", ".json", ".obj", ".x.y"}
+var exts = []string{".json", ".json", ".obj", ".x.y", ".json.gz"}
 
 // Profile tunes generation for the property being checked.
 type Profile struct {
@@ -131,7 +131,8 @@ func GenConfig(r *simrt.Rand, p *Profile) *Config {
 		if pth == "Lid" || pth == "Der" || pth == "Raw" {
 			continue
 		}
-		c.Cons[pth] = model.Cons{Index: true, Unique: true}
+		// unique, declared with or without the index flag (a unique field is indexed anyway)
+		c.Cons[pth] = model.Cons{Index: r.Bool(), Unique: true}
 	}
 	for _, pth := range paths {
 		if _, ok := c.Cons[pth]; ok {
@@ -162,7 +163,7 @@ func (c *Config) Schema() sod.Schema {
 	fields := sod.FieldDescriptors(&shapes.Rec{})
 	for _, p := range sortedKeys(c.Cons) {
 		k := c.Cons[p]
-		if err := fields.Constraint(p, sod.Constraints{Index: k.Index || k.Unique, Unique: k.Unique, Upper: k.Upper, Lower: k.Lower}); err != nil {
+		if err := fields.Constraint(p, sod.Constraints{Index: k.Index, Unique: k.Unique, Upper: k.Upper, Lower: k.Lower}); err != nil {
 			panic(fmt.Sprintf("config: %v", err))
 		}
 	}
